@@ -44,10 +44,13 @@ func describe(c srcmut.Case) string {
 	return b.String()
 }
 
-// lineColumn computes the line and column of a byte offset: lines are separated by '\n',
-// the column counts characters (bytes that start a UTF-8 sequence) from 1.
-func lineColumn(src string, off int) (line, col int, validUTF8 bool) {
-	line, col = 1, 1
+// lineColumn computes the line of a byte offset and the set of acceptable columns: lines
+// are separated by '\n', the column counts characters (bytes that start a UTF-8 sequence)
+// from 1. Two conventions are not fixed by the documentation and both readings are
+// accepted: whether a byte order mark at the start of the file is a character of the first
+// line, and whether carriage returns are characters.
+func lineColumn(src string, off int) (line int, cols map[int]bool, validUTF8 bool) {
+	line = 1
 	start := 0
 	for i := 0; i < off && i < len(src); i++ {
 		if src[i] == '\n' {
@@ -56,12 +59,45 @@ func lineColumn(src string, off int) (line, col int, validUTF8 bool) {
 		}
 	}
 	seg := src[start:min(off, len(src))]
-	for i := 0; i < len(seg); i++ {
-		if b := seg[i]; b < 128 || b > 191 {
-			col++
+	count := func(seg string, skipCR bool) int {
+		col := 1
+		for i := 0; i < len(seg); i++ {
+			if b := seg[i]; (b < 128 || b > 191) && !(skipCR && b == '\r') {
+				col++
+			}
+		}
+		return col
+	}
+	cols = map[int]bool{count(seg, false): true, count(seg, true): true}
+	if start == 0 && strings.HasPrefix(seg, "\xef\xbb\xbf") {
+		cols[count(seg[3:], false)] = true
+		cols[count(seg[3:], true)] = true
+	}
+	return line, cols, utf8.ValidString(seg)
+}
+
+// offsetOf returns the byte offset of the character at the line and column.
+func offsetOf(src string, line, column int) (int, bool) {
+	l, c := 1, 1
+	first := 0
+	if strings.HasPrefix(src, "\xef\xbb\xbf") {
+		first = 3
+	}
+	for i := first; i <= len(src); i++ {
+		if l == line && c == column && (i == len(src) || src[i] < 128 || src[i] > 191) {
+			return i, true
+		}
+		if i == len(src) {
+			break
+		}
+		if src[i] == '\n' {
+			l++
+			c = 1
+		} else if src[i] < 128 || src[i] > 191 {
+			c++
 		}
 	}
-	return line, col, utf8.ValidString(seg)
+	return 0, false
 }
 
 // judge returns "" when the build error (if any) is consistent; class describes it.
@@ -98,15 +134,29 @@ func judge(c srcmut.Case) (msg string, class string) {
 	if pos.End < pos.Start-1 || pos.End > len(src) {
 		return fmt.Sprintf("end offset %d is inconsistent (start %d, file %q of %d bytes): %v", pos.End, pos.Start, path, len(src), o.Err), "error"
 	}
-	line, col, valid := lineColumn(src, pos.Start)
-	if pos.Line != line {
-		return fmt.Sprintf("line %d reported for offset %d of %q, which is on line %d: %v", pos.Line, pos.Start, path, line, o.Err), "error"
-	}
-	if valid && pos.Column != col {
-		return fmt.Sprintf("column %d reported for offset %d of %q, which is column %d of line %d: %v", pos.Column, pos.Start, path, col, line, o.Err), "error"
-	}
-	if !strings.HasPrefix(o.Err.Error(), fmt.Sprintf("%s:%d:%d: ", path, pos.Line, pos.Column)) {
-		return fmt.Sprintf("Error() %q does not start with the path and position %s:%d:%d", o.Err.Error(), path, pos.Line, pos.Column), "error"
+	line, cols, valid := lineColumn(src, pos.Start)
+	if pos.Line != line || valid && !cols[pos.Column] {
+		// Recorded finding: for expressions with an operator (unary and binary operators,
+		// calls, conversions, index, selector and type assertion expressions) the line and
+		// column are those of the operator token while Start..End span the operands. It
+		// applies only when the reported line and column designate an operator character
+		// next to or inside the span.
+		if off, ok := offsetOf(src, pos.Line, pos.Column); ok && off != pos.Start && off < len(src) && off >= pos.Start-64 && off <= pos.End+1 && (off > pos.Start && off <= pos.End || strings.IndexByte("+-*/%&|^<>=!.([:,{", src[off]) >= 0) && ev.Known("C21-line-column-of-operator-inside-span") {
+			return "", "error-operator-position"
+		}
+		// Recorded finding: the automatically inserted semicolon (reported as "newline" or
+		// "semicolon") has the offset of the last byte before it and the column after it.
+		atEOL := false
+		if off, ok := offsetOf(src, pos.Line, pos.Column); ok && off == pos.Start+1 && (off == len(src) || src[off] == '\n' || src[off] == '\r') {
+			atEOL = true // the token is the semicolon inserted at the end of the line, whatever the message
+		}
+		if pos.Line == line && (atEOL || strings.Contains(o.Err.Error(), "unexpected newline") || strings.Contains(o.Err.Error(), "unexpected semicolon")) && ev.Known("C21-implicit-semicolon-offset") {
+			return "", "error-implicit-semicolon"
+		}
+		if pos.Line != line {
+			return fmt.Sprintf("line %d reported for offset %d of %q, which is on line %d: %v", pos.Line, pos.Start, path, line, o.Err), "error"
+		}
+		return fmt.Sprintf("column %d reported for offset %d of %q, which is column %v of line %d: %v", pos.Column, pos.Start, path, keys(cols), line, o.Err), "error"
 	}
 	return "", "error"
 }
@@ -152,4 +202,13 @@ func TestPropErrorPositions(t *testing.T) {
 			ev.Fail(t, "position", c, "%s%s", msg, describe(c))
 		}
 	})
+}
+
+func keys(m map[int]bool) []int {
+	var ks []int
+	for k := range m {
+		ks = append(ks, k)
+	}
+	sort.Ints(ks)
+	return ks
 }
